@@ -7,8 +7,9 @@ package snap
 // shell and clockwise as hole (the opposite with ReverseWindingOrder); no ring repeats its first vertex at the end,
 // has two equal consecutive vertices, or visits a vertex twice; without KeepPointsAndLines every ring has at least
 // three vertices; with it, every id present without it carries the same polygons first, followed only by one- or
-// two-vertex rings. The grid is dyadic (pixel 1/16), so float <-> integer conversions are exact here: the known
-// defect F4 (round trip of non-dyadic coordinates) is outside this domain by construction.
+// two-vertex rings. That grid is dyadic (pixel 1/16), so float <-> integer conversions are exact there. A last part
+// runs spiky rings on two built-in grids with non-dyadic pixel centres (the domain of defect F4) for the clauses that
+// can be decided exactly on floats.
 
 import (
 	"fmt"
@@ -205,4 +206,59 @@ func TestGvcC05RingsSmall(t *testing.T) {
 		}
 	}
 	fmt.Printf("GVC-DATA {\"part\":\"random polygons of 1..3 rings of 3..10 vertices over a 6x6 lattice\",\"seed\":%d,\"evaluations\":%d}\n", seed, evals2)
+
+	// built-in grids whose pixel centres are not dyadic (the domain of defect F4): spiky rings that revisit vertices,
+	// around a point of NetherlandsRDNewQuad (id 14) and of WebMercatorQuad (id 17). Only the clauses that can be
+	// decided exactly on floats are checked here (no vertex twice, no equal neighbours, no repeated closing vertex, at
+	// least three vertices, no empty list); orientation is left to the dyadic part (a float shoelace at these
+	// magnitudes is not a reliable oracle).
+	nReal := 4000
+	if thorough {
+		nReal = 60000
+	}
+	for _, g := range []struct {
+		name         string
+		id           int
+		cx, cy, step float64
+	}{{"NetherlandsRDNewQuad", 14, 20000, 380000, 0.2}, {"WebMercatorQuad", 17, 550000, 6850000, 0.3}} {
+		rtms, err := tms20.LoadEmbeddedTileMatrixSet(g.name)
+		if err != nil {
+			t.Fatal(err)
+		}
+		evals3 := 0
+		for i := 0; i < nReal && fails <= 3; i++ {
+			k := 4 + rnd.Intn(8)
+			rg := make([][2]float64, k)
+			for j := range rg {
+				rg[j] = [2]float64{g.cx + g.step*float64(rnd.Intn(8)), g.cy + g.step*float64(rnd.Intn(8))}
+			}
+			evals3++
+			func() {
+				defer func() { _ = recover() }() // panics are C06's business
+				res := SnapPolygon(geom.Polygon{rg}, rtms, []tms20.TMID{g.id}, Config{})
+				for id, polys := range res {
+					if len(polys) == 0 {
+						t.Errorf("GVC-FAIL id %d mapped to an empty list: polygon %v on %s", id, rg, g.name)
+						fails++
+						return
+					}
+					for _, p := range polys {
+						for ri, r := range p {
+							n := len(r)
+							seen := map[[2]float64]bool{}
+							for vi, v := range r {
+								if n < 3 || seen[v] || (n > 1 && v == r[(vi+1)%n]) {
+									t.Errorf("GVC-FAIL ring %d of a polygon for id %d on %s has fewer than three vertices, equal neighbours or visits %v twice: %v for polygon %v", ri, id, g.name, v, r, rg)
+									fails++
+									return
+								}
+								seen[v] = true
+							}
+						}
+					}
+				}
+			}()
+		}
+		fmt.Printf("GVC-DATA {\"part\":\"spiky rings on %s id %d (exact clauses only)\",\"seed\":%d,\"evaluations\":%d}\n", g.name, g.id, seed, evals3)
+	}
 }
